@@ -43,8 +43,8 @@ def cited_inside(spec, frag_start, frag_len, rng, nref):
             "cites": sorted(rng.sample(range(1, nref + 1), rng.randint(1, min(2, nref))))}
 
 
-def case_recipe(G, espec, rng, nmods, annotate=False, refs=False, rotate=True, shuffle=True, extra_unused=0):
-    c = G.case(rng, nmods)
+def case_recipe(G, espec, rng, nmods, annotate=False, refs=False, rotate=True, shuffle=True, extra_unused=0, rc_close=False):
+    c = G.case(rng, nmods, rc_close=rc_close)
     if c is None:
         return None
     specs = []
